@@ -9,13 +9,11 @@ COMMON = dict(src="C12_dup.c", env=["vp_alloc.c", "vp_libc.c"], units=["hwloc/bi
               unwindset=seed_uw(**{"strcmp.0": 24, "strlen.0": 24, "strdup.0": 24, "realloc.0": 200}),
               stubs=["seed environment stubs of vp_seed.h"], assumptions=["allocation never fails"])
 HARNESSES = [
-  dict(COMMON, name="memattrs_dup", entry="h_memattrs_dup", encoded=["hwloc_internal_memattrs_dup", "hwloc_bitmap_tma_dup", "hwloc_tma_strdup"], tiers={"quick": {}, "thorough": {}},
-       bounds="seed S2 with the standard attributes + two custom ones (cpuset and object initiators, arbitrary values); optionally after a refresh that removed every target of one attribute", cost=50),
   dict(COMMON, name="cpukinds_dup", entry="h_cpukinds_dup", encoded=["hwloc_internal_cpukinds_dup", "hwloc__tma_dup_infos"], tiers={"quick": {}, "thorough": {}},
        bounds="two kinds with arbitrary disjoint cpusets over the seed PUs, arbitrary forced efficiencies, one info pair", cost=40),
 ]
 # shared harnesses (same source, same queries) from the sibling specs: whole-topology dup through exact-size blocks, distances list, bitmap
-for spec, names in (("C19", ("dup_blocks_s2",)), ("C13", ("dup",)), ("C03", ("unop_dup",))):
+for spec, names in (("C19", ("dup_blocks_s2",)), ("C13", ("dup",)), ("C14", ("dup", "dup_emptied")), ("C03", ("unop_dup",))):
     m = _load(spec)
     for h in m.HARNESSES:
         if h["name"] in names:
